@@ -349,24 +349,24 @@ pub(crate) fn extract_code_block_start(line: &str) -> Option<(&str, &str, &str)>
     }
 
     let mut language_start = None;
-    for (index, ch) in line.chars().enumerate() {
+    for (index, ch) in line.char_indices() {
         if let Some(language_start) = language_start {
             if ch == '{' {
                 return Some((
                     &line[0..language_start],
-                    (line[language_start..index].trim_end()),
-                    &line[index..],
+                    (line[language_start..index].trim()),
+                    line[index..].trim_end(),
                 ));
             }
         } else if ch != '`' {
-            if index < 2 {
+            if index < 3 {
                 return None;
             }
             language_start = Some(index);
         }
     }
 
-    language_start.map(|index| (&line[0..index], &line[index..], ""))
+    language_start.map(|index| (&line[0..index], line[index..].trim(), ""))
 }
 
 pub(crate) trait NumberedLines {
